@@ -45,6 +45,8 @@ func (e *Engine) runStatic(name, prop string) ([]staticResult, []string) {
 		return e.enumRoundtrip(prop)
 	case "keeps-frames":
 		return e.keepsFrames(prop)
+	case "index-writers":
+		return e.indexWriters(prop)
 	}
 	return nil, []string{"unknown static check " + name}
 }
@@ -1473,6 +1475,124 @@ func (e *Engine) keepsFrames(prop string) ([]staticResult, []string) {
 			}
 			res = append(res, r)
 		}
+	}
+	return res, nil
+}
+
+
+// indexWriters: the indices of IR top-level entities (the map-typed fields of asm.newIndex) bind every key to
+// one object for the whole translation: each index has a single function that stores into it (its creator) --
+// and, the exception the property documents, irFuncAttribute when it materialises an undefined attribute
+// group. A second function storing into an index would leave earlier uses bound to an object the module no
+// longer lists.
+func (e *Engine) indexWriters(prop string) ([]staticResult, []string) {
+	pkg := e.pkgs[modPath+"/asm"]
+	if pkg == nil {
+		return nil, []string{"index-writers: package asm not loaded"}
+	}
+	tn, _ := pkg.Pkg.Scope().Lookup("newIndex").(*types.TypeName)
+	if tn == nil {
+		return nil, []string{"index-writers: contract-stale: type newIndex not found"}
+	}
+	st, ok := tn.Type().Underlying().(*types.Struct)
+	if !ok {
+		return nil, []string{"index-writers: contract-stale: newIndex is not a struct"}
+	}
+	var res []staticResult
+	for fi := 0; fi < st.NumFields(); fi++ {
+		if _, isMap := st.Field(fi).Type().Underlying().(*types.Map); !isMap {
+			continue
+		}
+		fname := st.Field(fi).Name()
+		r := staticResult{Name: "index-writers:" + fname, Func: pkg.Pkg.Path(), Kind: "index-writers", Status: "unsat"}
+		var writers, problems, creators, replacers []string
+		for _, mem := range pkg.Members {
+			var fns []*ssa.Function
+			switch m := mem.(type) {
+			case *ssa.Function:
+				fns = append(fns, m)
+			case *ssa.Type:
+				for _, T := range []types.Type{m.Type(), types.NewPointer(m.Type())} {
+					ms := e.prog.MethodSets.MethodSet(T)
+					for i := 0; i < ms.Len(); i++ {
+						if f := e.prog.MethodValue(ms.At(i)); f != nil && f.Pkg == pkg {
+							fns = append(fns, f)
+						}
+					}
+				}
+			}
+			for len(fns) > 0 {
+				fn := fns[0]
+				fns = append(fns[1:], fn.AnonFuncs...)
+				for _, b := range fn.Blocks {
+					for _, ins := range b.Instrs {
+						isWrite := false
+						var mp ssa.Value
+						switch x := ins.(type) {
+						case *ssa.MapUpdate:
+							mp, isWrite = x.Map, true
+						case ssa.CallInstruction:
+							if bi, ok := x.Common().Value.(*ssa.Builtin); ok && (bi.Name() == "delete" || bi.Name() == "clear") && len(x.Common().Args) > 0 {
+								mp, isWrite = x.Common().Args[0], true
+							}
+						case *ssa.Store:
+							// the map itself replaced
+							if fa, ok := x.Addr.(*ssa.FieldAddr); ok && fa.Field == fi && types.Identical(fa.X.Type().Underlying().(*types.Pointer).Elem(), tn.Type()) && fn.Name() != "newGenerator" {
+								replacers = append(replacers, fn.Name())
+							}
+						}
+						if !isWrite {
+							continue
+						}
+						ld, ok := mp.(*ssa.UnOp)
+						if !ok {
+							continue
+						}
+						fa, ok := ld.X.(*ssa.FieldAddr)
+						if !ok || fa.Field != fi || !types.Identical(fa.X.Type().Underlying().(*types.Pointer).Elem(), tn.Type()) {
+							continue
+						}
+						name := fn.Name()
+						seen := false
+						for _, w := range writers {
+							if w == name {
+								seen = true
+							}
+						}
+						if !seen {
+							writers = append(writers, name)
+						}
+						if !seen && !(name == "irFuncAttribute" && fname == "attrGroupDefs") {
+							creators = append(creators, name)
+						}
+					}
+				}
+			}
+		}
+		sort.Strings(writers)
+		sort.Strings(creators)
+		// one creator per index (besides the documented exception): a second function storing into the index
+		// rebinds keys that earlier uses have already resolved
+		if len(creators) > 1 {
+			problems = append(problems, fmt.Sprintf("the index %s is written by more than one function: %s", fname, strings.Join(creators, ", ")))
+		}
+		for _, rp := range replacers {
+			if len(creators) != 1 || rp != creators[0] {
+				problems = append(problems, fmt.Sprintf("%s replaces the map of the index %s", rp, fname))
+			}
+		}
+		r.Detail = fmt.Sprintf("the index %s is written only by %s", fname, strings.Join(writers, ", "))
+		if len(writers) == 0 {
+			r.Status, r.Detail = "fail", "contract-stale: no writer of the index "+fname+" found"
+		}
+		if len(problems) > 0 {
+			sort.Strings(problems)
+			r.Status, r.Detail = "fail", strings.Join(problems, "; ")
+		}
+		res = append(res, r)
+	}
+	if len(res) == 0 {
+		return nil, []string{"index-writers: contract-stale: newIndex has no map fields"}
 	}
 	return res, nil
 }
